@@ -8,8 +8,8 @@ and right operand; the comparison operator is part of the name: `_cond_le_`, `_c
 `for i := A; i </<= B; i++` with literal bounds into a `Nat` (number of passes).  Each lemma restates a model
 function with its guards written through those definitions and is `rfl`: a changed threshold (`epsln` → 0.0873,
 `1e-10` → `1e-6`), operand, operator (`<=` → `<`: the definition's NAME changes) or loop bound in the source breaks
-the lemma.  What is still not tied: which statements a guard governs (the nesting), the irregular loops
-(tmerc `max_iter`, krovak `iter < 15`, the Hannover loop) whose caps are integers compared at run time.
+the lemma.  What is still not tied: which statements a guard governs (the nesting).  The integer caps of the irregular loops
+(tmerc `max_iter`, krovak `iter < 15` / `iter >= 15`, Hannover `maxiter`) are regenerated as `Nat`s and used by `tie_invTmerc`, `tie_invKrovakVals_real`, `tie_geocentricToGeodetic`.
 -/
 namespace GeomV.C08.Ties
 open GeomV.C08 RNum RTrans
